@@ -16,7 +16,7 @@ using vf::CVecL;
 typedef Eigen::Index Index;
 
 static const ld CTOL = 64;
-static const char* CLASS_NAMES[7] = {"small_integer", "spd", "indefinite", "zero_diagonal", "block_diagonal", "graded", "arrow_tridiagonal"};
+static const char* CLASS_NAMES[8] = {"small_integer", "spd", "indefinite", "zero_diagonal", "block_diagonal", "graded", "arrow_tridiagonal", "wild_entry_scales"};
 static const char* FORM_NAMES[5] = {"colmajor", "rowmajor", "block_of_larger", "map", "expression"};
 
 // exact determinant of a small integer matrix (fraction-free Bareiss elimination in 128-bit integers)
@@ -126,8 +126,8 @@ static void bk_case(vf::Draw& d, vf::Case& c)
     typedef typename Types<S>::Vec Vec;
     const bool cplx = vf::Sc<S>::is_complex;
     const ld eps = vf::Sc<S>::eps();
-    int cls = (int) d.range("class", 0, 6);
-    Index nmax = (cls == 0) ? 8 : (Index) vf::options().geti("nmax", 40);
+    int cls = (int) d.range("class", 0, 7);
+    Index nmax = (cls == 0) ? 8 : (cls == 7 ? 7 : (Index) vf::options().geti("nmax", 40));
     Index n = (Index) d.dim("n", 1, nmax);
     CMatL A = CMatL::Zero(n, n);
     bool integer = false;
@@ -145,6 +145,27 @@ static void bk_case(vf::Draw& d, vf::Case& c)
                     A(j, i) = cld(re, -im);
                 }
             break;
+        case 7:  // every entry drawn on its own as m * 10^e: arbitrary RELATIVE magnitudes between neighbouring entries (a tiny or zero pivot
+                 // candidate next to a moderate diagonal entry whose own column holds something huge, ...). The pivoting strategy has to
+                 // compare the right quantities to keep element growth bounded; smoothly graded matrices (class 5) never probe that.
+        {
+            const int emax = std::is_same<Real, float>::value ? 3 : 8;
+            for (Index j = 0; j < n; j++)
+                for (Index i = j; i < n; i++)
+                {
+                    long m = d.range("m", -9, 9);
+                    if (i == j && d.one_in("zero_diag", 3))
+                        m = 0;
+                    long e = d.range("e10", -emax, emax);
+                    ld re = (ld) m * std::pow((ld) 10, (ld) e);
+                    ld im = 0;
+                    if (cplx && i != j)
+                        im = (ld) d.range("mi", -9, 9) * std::pow((ld) 10, (ld) d.range("e10i", -emax, emax));
+                    A(i, j) = cld(re, im);
+                    A(j, i) = cld(re, -im);
+                }
+            break;
+        }
         default:
         {
             vf::Lcg g((uint64_t) d.range("content_seed", 0, 65535));
@@ -303,6 +324,21 @@ static void bk_case(vf::Draw& d, vf::Case& c)
         vf::Lcg g((uint64_t) d.range("rhs_seed", 0, 255));
         for (Index i = 0; i < n; i++)
             b[i] = cld(g.dy(), cplx ? g.dy() : 0) * scale;
+    }
+    // alternatively b = M y for a moderate y: the solution then has order-one components on EVERY row, so that a loss of stability in
+    // any elimination step shows in the residual (a random b can leave the affected component negligible)
+    if (d.flag("rhs_is_M_times_y") && normM > 0)
+    {
+        CVecL y(n);
+        vf::Lcg g2((uint64_t) d.range("y_seed", 0, 255));
+        for (Index i = 0; i < n; i++)
+            y[i] = cld(1 + g2.dy() / 4, cplx ? g2.dy() / 4 : 0);
+        CVecL My = M * y;
+        if (vf::all_finite(My))
+        {
+            b = My;
+            c.cls("rhs_is_M_times_y");
+        }
     }
     Vec bs = vf::Narrow<S>::mat(b);
     b = vf::widen(bs);
